@@ -60,14 +60,14 @@ Definition contains_unary_nodes (es : list edge) (is_sample : nat -> bool) (skip
     >>
     a tree starts at every distinct edge end point (and at 0); the edges out / in at the
     tree starting at [x] are those with right / left end [x]; [num_children_array] is
-    [num_children es x]. *)
+    [num_children es x] (computed row-wise as [num_children_l]). *)
 Definition changed_parents (es : list edge) (x : Z) : list nat :=
   map eparent (filter (fun e => (eright e =? x) || (eleft e =? x)) es).
 
 Definition tree_starts (es : list edge) : list Z := 0 :: map eleft es ++ map eright es.
 
 Definition prior_unary (es : list edge) : bool :=
-  existsb (fun x => existsb (fun p => num_children es x p =? 1) (changed_parents es x))
+  existsb (fun x => existsb (fun p => num_children_l es x p =? 1) (changed_parents es x))
           (tree_starts es).
 
 (** the accept/reject decisions *)
@@ -83,5 +83,5 @@ Definition discrete_rejects (allow_unary : bool) (es : list edge) : bool :=
     reference, also the right-hand side of the theorems in decidable form) *)
 Definition zrange0 (L : Z) : list Z := map Z.of_nat (seq 0 (Z.to_nat L)).
 Definition ref_unary (es : list edge) (mask : nat -> bool) (num_nodes : nat) (L : Z) : bool :=
-  existsb (fun x => existsb (fun u => negb (mask u) && (num_children es x u =? 1)) (seq 0 num_nodes))
+  existsb (fun x => existsb (fun u => negb (mask u) && (num_children_l es x u =? 1)) (seq 0 num_nodes))
           (zrange0 L).
